@@ -26,21 +26,35 @@ verus! {
 //@type src/parse/rule.rs const NAME_META
 pub mod rust_decimal { pub use super::DecError as Error; }
 pub mod thiserror {}
+/// what `unescape` returns (uninterpreted: the escape decoder is a boundary)
+pub uninterp spec fn unescape_spec(s: Seq<char>) -> core::result::Result<String, UnescapeError>;
+// `#[from]` on the variants of RevalParseError (thiserror): ASSUMED to generate the obvious From impls
+impl vstd::std_specs::convert::FromSpecImpl<ParseIntError> for RevalParseError { open spec fn obeys_from_spec() -> bool { true } open spec fn from_spec(v: ParseIntError) -> RevalParseError { RevalParseError::ParsingInt(v) } }
+impl From<ParseIntError> for RevalParseError { #[verifier::external_body] fn from(source: ParseIntError) -> RevalParseError { unimplemented!() } }
+impl vstd::std_specs::convert::FromSpecImpl<ParseFloatError> for RevalParseError { open spec fn obeys_from_spec() -> bool { true } open spec fn from_spec(v: ParseFloatError) -> RevalParseError { RevalParseError::ParsingFloat(v) } }
+impl From<ParseFloatError> for RevalParseError { #[verifier::external_body] fn from(source: ParseFloatError) -> RevalParseError { unimplemented!() } }
+impl vstd::std_specs::convert::FromSpecImpl<DecError> for RevalParseError { open spec fn obeys_from_spec() -> bool { true } open spec fn from_spec(v: DecError) -> RevalParseError { RevalParseError::ParsingDecimal(v) } }
+impl From<DecError> for RevalParseError { #[verifier::external_body] fn from(source: DecError) -> RevalParseError { unimplemented!() } }
+impl vstd::std_specs::convert::FromSpecImpl<UnescapeError> for RevalParseError { open spec fn obeys_from_spec() -> bool { true } open spec fn from_spec(v: UnescapeError) -> RevalParseError { RevalParseError::UnescapingString(v) } }
+impl From<UnescapeError> for RevalParseError { #[verifier::external_body] fn from(source: UnescapeError) -> RevalParseError { unimplemented!() } }
 
 pub mod code {
 use super::*;
 //@include broadcasts.rs
 
 // ---- boundaries (signatures only) ----
-//@import parse_int_value
-//@import parse_hex_int_value
-//@import parse_bin_int_value
-//@import parse_oct_int_value
-//@import parse_float_value
-//@import parse_decimal_value
-//@import parse_index_value
-//@import parse_string_literal
+//@import unescape
 //@import RuleBuilder::parse
+
+// ---- verified: the token helpers the literal actions call ----
+//@fn parse_int_value
+//@fn parse_hex_int_value
+//@fn parse_bin_int_value
+//@fn parse_oct_int_value
+//@fn parse_float_value
+//@fn parse_decimal_value
+//@fn parse_index_value
+//@fn parse_string_literal
 
 // ---- verified: constructors the actions call ----
 //@fn Expr::value
